@@ -5,8 +5,9 @@
 //! the top of lean/UmDriver/Proto.lean (also implemented in src/proto_support.rs).
 //!
 //! The oracle (Rust only, never consults the Lean model):
-//!  * round trip: a well-formed value decodes from its own encoding to an equal value (plain,
-//!    compressed, plain == compressed, SETREPL, task descriptor through the INFOMGR journey,
+//!  * round trip: a well-formed value decodes from its own encoding to an equal value; any
+//!    plain-expressible cluster meta, whatever its range lists look like, decodes from both the plain
+//!    and the compressed form to its *compacted* value (plain == compressed; fix 23e5d8f) (also SETREPL, task descriptor through the INFOMGR journey,
 //!    SwitchArg);
 //!  * no misparse: whenever a (mutated) argument vector is accepted, re-encoding the accepted
 //!    value and decoding again yields the same value (so the vector is an encoding of what it
@@ -665,6 +666,27 @@ fn meta_key_noflag(m: &ProxyClusterMeta) -> String {
     sp(&o)
 }
 
+/// the description with every range list passed through the real `RangeList::new` (= `compact`):
+/// the value both wire forms are specified to denote
+fn compacted_desc(d: &DMeta) -> DMeta {
+    let cm = |m: &DMap| -> DMap {
+        m.iter().map(|(a, srs)| (a.clone(), srs.iter().map(|sr| DSr {
+            ranges: RangeList::new(sr.ranges.iter().map(|(s, e)| undermoon::common::cluster::Range(*s, *e)).collect())
+                .get_ranges().iter().map(|r| (r.start(), r.end())).collect(),
+            tag: sr.tag.clone() }).collect())).collect()
+    };
+    let mut c = d.clone();
+    c.data.local = cm(&d.data.local);
+    c.data.peer = cm(&d.data.peer);
+    c
+}
+/// expressible by the plain encoder whatever the range lists look like: no empty group, no
+/// section-word address, scan_count != 0
+fn is_bd(d: &DMeta) -> bool {
+    let okm = |m: &DMap| m.iter().all(|(a, srs)| !srs.is_empty() && !is_section_word(a));
+    okm(&d.data.local) && okm(&d.data.peer) && d.data.cfg.sc != 0
+}
+
 impl H {
     /// no-misparse oracle on an accepted plain vector: the accepted value re-encodes to a vector
     /// that decodes to the same value
@@ -701,6 +723,16 @@ impl H {
         } else {
             self.s.stats.count(if rt_ok { "out.rt.not_wellformed_but_equal" } else { "out.rt.not_wellformed_differs" });
         }
+        let bd = is_bd(d);
+        if bd {
+            // whatever the range lists look like, the plain form denotes the compacted value
+            let want = real_meta(&compacted_desc(d)).map(|m| meta_key(&m));
+            let got = match &r { Some(Ok((m2, true))) => Some(meta_key(m2)), _ => None };
+            if want.is_none() || want != got {
+                self.fail("cluster meta does not decode from its plain encoding to its compacted value", "", vec![op_enc.clone(), op_p.clone()]);
+            }
+            if !wf { self.s.stats.count("out.rt.noncompact_decodes_to_compacted"); }
+        }
         let cmd = Some(wrap_cmd("SETCLUSTER", &args));
         let (r2, op_f) = self.op_fromresp(&cmd);
         if render_parse(&r2) != render_parse(&r) {
@@ -709,7 +741,8 @@ impl H {
         // compressed path
         let mut dc = d.clone();
         dc.compress = true;
-        let mc_real = match real_meta(&dc) { Some(m) => m, None => return };
+        // both wire forms denote the compacted value (fix 23e5d8f: the compressed branch of parse compacts too)
+        let mc_real = match real_meta(&compacted_desc(&dc)) { Some(m) => m, None => return };
         let c_key = meta_key(&mc_real);
         let mut cargs_saved: Option<Vec<String>> = None;
         match self.op_toargsc(&dc) {
@@ -718,11 +751,11 @@ impl H {
                 self.s.stats.add("size.blob_bytes", cargs.get(3).map(|b| b.len()).unwrap_or(0) as u64);
                 let (rc, op_cp, _) = self.op_parse(&cargs);
                 let ok = matches!(&rc, Some(Ok((m2, true))) if meta_key(m2) == c_key);
-                if !ok { self.fail("cluster meta does not decode from its compressed encoding to an equal value", "", vec![op_ce.clone(), op_cp.clone()]); }
-                if wf {
+                if !ok { self.fail("cluster meta does not decode from its compressed encoding to its compacted value", "", vec![op_ce.clone(), op_cp.clone()]); }
+                if bd {
                     if let (Some(Ok((a, _))), Some(Ok((b, _)))) = (&r, &rc) {
                         if meta_key_noflag(a) != meta_key_noflag(b) {
-                            self.fail("plain and compressed encodings of a well-formed meta decode to different values", "", vec![op_p.clone(), op_cp]);
+                            self.fail("plain and compressed encodings of a meta decode to different values", "", vec![op_p.clone(), op_cp]);
                         }
                     }
                 }
@@ -1368,8 +1401,26 @@ impl H {
                     }
                     self.rstore = Some(st);
                 }
-                "toargs" => { let mut c = Cur::new(rest.get(1..)?); let d = p_meta(&mut c)?; self.op_toargs(&d)?; }
-                "toargsc" => { let mut c = Cur::new(rest.get(1..)?); let d = p_meta(&mut c)?; self.op_toargsc(&d)?; }
+                "toargs" => {
+                    // encode, then decode the real vector: a plain-expressible meta denotes its compacted value
+                    let mut c = Cur::new(rest.get(1..)?); let d = p_meta(&mut c)?;
+                    let (args, op_e) = self.op_toargs(&d)?;
+                    let (r, op_p, _) = self.op_parse(&args);
+                    if is_bd(&d) && !d.compress {
+                        let want = real_meta(&compacted_desc(&d)).map(|m| meta_key(&m));
+                        let got = match &r { Some(Ok((m2, true))) => Some(meta_key(m2)), _ => None };
+                        if want.is_none() || want != got { self.fail("cluster meta does not decode from its plain encoding to its compacted value", "", vec![op_e, op_p]); }
+                    }
+                }
+                "toargsc" => {
+                    let mut c = Cur::new(rest.get(1..)?); let mut d = p_meta(&mut c)?;
+                    d.compress = true;
+                    let (args, op_e) = self.op_toargsc(&d)?;
+                    let (r, op_p, _) = self.op_parse(&args);
+                    let want = real_meta(&compacted_desc(&d)).map(|m| meta_key(&m));
+                    let got = match &r { Some(Ok((m2, true))) => Some(meta_key(m2)), _ => None };
+                    if want.is_none() || want != got { self.fail("cluster meta does not decode from its compressed encoding to its compacted value", "", vec![op_e, op_p]); }
+                }
                 "parse" => {
                     let v = strings_of(skip_dec(&rest)?)?;
                     let (r, op, _) = self.op_parse(&v);
